@@ -15,6 +15,7 @@ the full statement is kept as a `def … : Prop`, refuted on a witness, and the 
 import MesonModel.Ninja.GraphLemmas
 import MesonModel.Ninja.EmitLemmas
 import MesonModel.Ninja.Manifest
+import MesonModel.Ninja.ManifestLemmas
 
 namespace MesonModel.Props.C04
 open MesonModel.Ninja
@@ -115,6 +116,36 @@ example :
      | .error _ => [])
     = [(["a b", "i"], ["t.c", "u", "v"]), (["all"], ["a b"])] := by
   decide
+
+/-! ## (a) what the backend writes for a path is what Ninja reads -/
+
+/-- For every name without newline, carriage return and `|`: the text `ninja_quote(name, True)`, followed by anything
+that ends a path on a build line (blank, `:`, `|`, end of line), is read by the manifest lexer as exactly `name`
+(one literal piece per character, no variable reference), whatever the variable environment. -/
+theorem quote_read_roundtrip (name : Str) (h : ∀ c ∈ name, PlainChar c) (c0 : Char) (h0 : isTerm c0) (tail : Str)
+    (env : List (Str × Str)) :
+    ∃ e, readEval true (name.length + 1) false (Emit.ninjaQuoteBuild name ++ c0 :: tail) [] = .ok (e, c0 :: tail) ∧
+      evalStr env e = name := by
+  refine ⟨name.map Piece.lit, ?_, evalStr_lits env name⟩
+  simpa using readEval_quote name h c0 h0 tail [] (name.length + 1) (Nat.le_refl _)
+
+/-- full statement without the `|` exclusion -/
+def quote_read_roundtrip_full : Prop :=
+  ∀ (name : Str), (∀ c ∈ name, c ≠ '\n' ∧ c ≠ '\r') → ∀ (tail : Str),
+    ∃ e, readEval true (name.length + 1) false (Emit.ninjaQuoteBuild name ++ ':' :: tail) [] = .ok (e, ':' :: tail) ∧
+      evalStr [] e = name
+
+/-- … is false: `ninja_quote` leaves `|` alone and Ninja has no escape for it — `a|b` is read as the path `a`
+followed by the implicit-output separator (known finding `pipe-in-path`) -/
+theorem quote_read_roundtrip_counterexample : ¬ quote_read_roundtrip_full := by
+  intro h
+  obtain ⟨e, h1, _⟩ := h "a|b".toList (by decide) []
+  revert h1
+  simp [Emit.ninjaQuoteBuild, readEval]
+
+/-- non-vacuity: a name with blank, colon, dollar and non-ASCII letters meets the hypotheses -/
+example : ∀ c ∈ "a b:c$é".toList, PlainChar c := by unfold PlainChar; decide
+example : isTerm ':' := .inr (.inl rfl)
 
 /-! ## (c) the emission discipline -/
 
